@@ -65,7 +65,10 @@ Definition step14 (nps : list nat) (s : s14) (e : entry) : option s14 :=
   | MPend p =>
       match e with
       | ELoad _ _ | EEv _ _ => Some s
-      | EAct o a w h => if is_callback o then act14 prev a w h else None
+      | EAct o a w h =>
+          if is_callback o
+          then match a with ANormal => Some s | _ => act14 prev a w h end
+          else None
       | EClock _ _ _ | EClockEnd _ _ _ =>
           match p with PSwitch => clock14 prev e | _ => None end
       | EEnd out w' h' =>
